@@ -51,7 +51,7 @@ def resolve_unwind(cfile, rules, default):
     for m in re.finditer(r"^Loop ([^\s:]+):", r["out"], re.M):
         lid = m.group(1)
         for sub, n in list(rules) + [("vf_eh_matches", 9)]:
-            if sub in lid:
+            if (lid.endswith(sub) if sub[-1].isdigit() else sub in lid):
                 uw[lid] = n; break
     return uw
 
